@@ -237,6 +237,7 @@ def run(ctx):
     edges = core.parse_printed_json(res, tag="EDGE")
     if len(edges) < 100:
         raise core.MachineryError(f"edge dump too small: {len(edges)}")
+    core.edge_label_coverage(ctx, edges, lambda e: e["act"]["op"] + ("/create" if e["act"]["op"] == "match_incoming" and e["act"]["auto"] else ""), "storage", 10)
     ctx.note("edges", len(edges))
     ctx.exhaustive = True
     # ---- spec -> code: replay every edge (streamed in chunks: a trace carries the whole projected storage after every step)
